@@ -124,7 +124,24 @@ pub struct ProgSpec {
     pub pad: Option<Pad>,
     /// sizes of the leading writes when the text is fed through standard input (rest in one write)
     pub feed: Vec<u16>,
+    /// index into `FRAMES`: blank lines / indentation in front of the text and white space after it
+    pub frame: u8,
+    /// Some((kind, n)): instead of a generated program, n statements that each produce one
+    /// diagnostic (kind 0 undeclared variable, 1 syntax error, 2 unused-variable warning, 3 mixed)
+    pub many: Option<(u8, u16)>,
 }
+
+/// (before, after) the program text
+const FRAMES: [(&str, &str); 8] = [
+    ("", ""),
+    ("\n\n", ""),
+    ("    ", ""),
+    ("\t", "\n\n"),
+    ("\r\n\r\n", "\r\n"),
+    (" \n \n  ", "   "),
+    ("\n", "\n \t\n"),
+    ("# first line\n\n", "\n# last line"),
+];
 
 impl ProgSpec {
     fn source(&self) -> String {
@@ -132,11 +149,27 @@ impl ProgSpec {
         if let Some((op, site, variant)) = self.injection {
             let _ = inject(&mut p, &Injection { op, site, variant });
         }
-        let base = to_source(&p);
-        match &self.pad {
+        let base = match self.many {
+            Some((kind, n)) => {
+                let mut s = String::new();
+                for i in 0..n {
+                    match if kind == 3 { (i % 3) as u8 } else { kind } {
+                        0 => s.push_str(&format!("shout(nobody{i})\n")),
+                        1 => s.push_str(&format!("make {i} get\n")),
+                        _ => s.push_str(&format!("make unused{i} get {i}\n")),
+                    }
+                }
+                s.push_str("shout(\"done\")\n");
+                s
+            }
+            None => to_source(&p),
+        };
+        let text = match &self.pad {
             Some(pad) => pad.wrap(&base),
             None => base,
-        }
+        };
+        let (before, after) = FRAMES[usize::from(self.frame) % FRAMES.len()];
+        format!("{before}{text}{after}")
     }
     fn to_json(&self) -> J {
         json!({
@@ -144,6 +177,8 @@ impl ProgSpec {
             "injection": self.injection.map(|(a, b, c)| json!([a, b, c])),
             "pad": self.pad.map(|p| json!([p.kind, p.shift, p.ch, p.boundary])),
             "feed": self.feed,
+            "frame": self.frame,
+            "many": self.many.map(|(k, n)| json!([k, n])),
         })
     }
     fn from_json(j: &J) -> Option<ProgSpec> {
@@ -160,6 +195,8 @@ impl ProgSpec {
                 .and_then(J::as_array)
                 .map(|a| a.iter().filter_map(J::as_u64).map(|x| x as u16).collect())
                 .unwrap_or_default(),
+            frame: j.get("frame").and_then(J::as_u64).unwrap_or(0) as u8,
+            many: j.get("many").and_then(J::as_array).map(|a| (n(a, 0) as u8, n(a, 1) as u16)),
         })
     }
 }
@@ -181,7 +218,35 @@ fn prog_strategy() -> impl Strategy<Value = ProgSpec> {
             1..5
         ),
     ];
-    (base, pad, feed).prop_map(|((tape, injection), pad, feed)| ProgSpec { tape, injection, pad, feed })
+    let frame = prop_oneof![2 => Just(0u8), 3 => 1u8..8];
+    (base, pad, feed, frame).prop_map(|((tape, injection), pad, feed, frame)| ProgSpec {
+        tape,
+        injection,
+        pad,
+        feed,
+        frame,
+        many: None,
+    })
+}
+
+/// Texts with a chosen number of diagnostics, in particular around multiples of 256 (an exit
+/// status is one byte).
+fn many_strategy() -> impl Strategy<Value = ProgSpec> {
+    let n = prop_oneof![
+        2 => 1u16..40,
+        3 => 250u16..262,
+        2 => 506u16..518,
+        1 => 762u16..774,
+        1 => 1018u16..1030,
+    ];
+    (0u8..4, n, 0u8..8).prop_map(|(kind, n, frame)| ProgSpec {
+        tape: Vec::new(),
+        injection: None,
+        pad: None,
+        feed: Vec::new(),
+        frame,
+        many: Some((kind, n)),
+    })
 }
 
 fn run_cli(build: Build, route: u8, src: &str, feed: &[u16], dir: &proc::TempDir) -> Option<(proc::Output, String)> {
@@ -330,6 +395,12 @@ fn check_cli(ctx: &mut ShardCtx, spec: &ProgSpec, builds: &[Build]) -> Outcome {
     if !spec.feed.is_empty() {
         ctx.class("standard input delivered in several writes");
     }
+    if spec.frame % 8 != 0 {
+        ctx.class("white space / comment lines around the text");
+    }
+    if let Some((_, n)) = spec.many {
+        ctx.class(if (250..262).contains(&n) || n > 500 { "text with about 256 x k diagnostics" } else { "text with many diagnostics" });
+    }
     if lines >= 3 {
         ctx.nontrivial(hash_str(&src));
         let shown = if src.len() > 600 { format!("{} ... ({} bytes)", &src[..src.floor_char_boundary(300)], src.len()) } else { src.clone() };
@@ -466,6 +537,9 @@ impl Check for C14 {
         });
         crate::prop::run(ctx, "cli-release", t.pick(25, 400), prog_strategy(), |ctx, spec| {
             check_cli(ctx, spec, &[Build::Release])
+        });
+        crate::prop::run(ctx, "cli-many-diagnostics", t.pick(30, 400), many_strategy(), |ctx, spec| {
+            check_cli(ctx, spec, &[Build::Debug])
         });
         let hist = (
             prop::collection::vec(prog_strategy(), 1..4),
